@@ -463,6 +463,9 @@ fn random_param_expr(
                 args.push(Expr::Const(rng.coin()));
             } else if opts.nested_params && depth > 0 && rng.chance(1, 3) {
                 args.push(random_param_expr(rng, opts, regs, pool, param_names, bits_left, 0));
+            } else if opts.expr_args && rng.chance(1, 6) {
+                // a negated variable as an argument: f(!a)
+                args.push(Expr::Not(Box::new(Expr::Var(*rng.pick(regs)))));
             } else if opts.expr_args && rng.chance(1, 7) {
                 // a literal constant as an argument: f(true, a)
                 args.push(Expr::Const(rng.coin()));
